@@ -13,6 +13,9 @@ import (
 
 const relImage = opc.RelPrefix + "image"
 
+// unchangedNote marks an extent failure of a resized picture whose extent still is what the addition made it.
+const unchangedNote = "[the extent is still the one of the addition]"
+
 // seen is one picture found in word/document.xml.
 type seen struct {
 	embed          string
@@ -169,6 +172,9 @@ func observe(res *kit.Result, where string, b []byte, m *model, unjudged *int) {
 	for i, p := range want {
 		s := got[i]
 		tag := fmt.Sprintf("%s: picture %d (%s, %s %dx%d px, name %q, added by op %d, size %s)", where, i, p.src, p.format, p.w, p.h, p.name, p.op, sizeString(p.size))
+		if p.resized > 0 {
+			tag = strings.TrimSuffix(tag, ")") + fmt.Sprintf(", resized by op %d)", p.resized)
+		}
 		if s.problem != "" {
 			o.fail("C10.K1.resolve", "%s: %s", tag, s.problem)
 			continue
@@ -223,7 +229,16 @@ func observe(res *kit.Result, where string, b []byte, m *model, unjudged *int) {
 			continue
 		}
 		if math.Abs(float64(cx)-rule.cx) > rule.tolX || math.Abs(float64(cy)-rule.cy) > rule.tolY {
-			o.fail("C10.K3.rule", "%s: extent is %dx%d EMU, the sizing rule gives %.1fx%.1f (+-%.1f/%.1f): %s", tag, cx, cy, rule.cx, rule.cy, rule.tolX, rule.tolY, rule.why)
+			note := ""
+			if p.resized > 0 && p.orig != nil {
+				// the signature of a resize that did nothing: the extent is still the one of the addition
+				q := *p
+				q.size = *p.orig
+				if r0 := ruleFor(&q); !r0.judged || (math.Abs(float64(cx)-r0.cx) <= r0.tolX && math.Abs(float64(cy)-r0.cy) <= r0.tolY) {
+					note = " " + unchangedNote
+				}
+			}
+			o.fail("C10.K3.rule", "%s: extent is %dx%d EMU, the sizing rule gives %.1fx%.1f (+-%.1f/%.1f): %s%s", tag, cx, cy, rule.cx, rule.cy, rule.tolX, rule.tolY, rule.why, note)
 		}
 	}
 }
